@@ -85,7 +85,7 @@ CHECKS = {
              "per-example args with distinct rows, n shuffles 1-5, 1-4 spacing rows, 1-6 annotations (!= #outputs) and product batch "
              "sizes that do not divide the product size.",
         note="func returns a tensor or a flat tuple/list; ablate_annotations with per-example args and B>1 is refused by the code and "
-             "counted as rejected_by_sut; deep_lift_shap as func is exercised in C06/C07, not here."),
+             "counted as rejected_by_sut; with func=deep_lift_shap (random float64 architectures, generated references, integer seed) entries are compared at rtol 1e-9 with single-example calls."),
     "C09": dict(
         technique="property-based testing (Hypothesis): differential against explicit per-mutant forward passes of an exact-integer model",
         category="exploration", design_ref="DESIGN.md §3 C09",
